@@ -192,6 +192,33 @@ def optional_steps(sw, root, quick, rnd):
                         sw.fail('C01', key, f'after deleting optional field {fld}: {vv}', src_after=r.src[:300])
                         continue
                     sw.post_edit(r, key, f'put(None, {fld!r})')
+        # code-form agreement of slice puts under raw='auto' (source str vs FST vs pure AST must give the same
+        # structure, or all be refused) on argument-like and plain element fields
+        for fld in ('args', 'bases', 'elts'):
+            lst = getattr(a, fld, None)
+            if not isinstance(lst, list) or not lst or 'C03' not in sw.props:
+                continue
+            for i in range(len(lst)):
+                for code in ('*sx', 'px'):
+                    results = {}
+                    for form in ('str', 'FST', 'AST'):
+                        r = sw.fresh()
+                        n = follow(r, path) if path else r
+                        sw.ev += 1
+                        try:
+                            c = code if form == 'str' else r.__class__(code, 'expr_arglike')
+                            if form == 'AST':
+                                c = c.a
+                            n.put_slice(c, i, i + 1, fld, one=True, raw='auto')
+                            results[form] = ast.dump(ast.parse(r.src)) if not c01_violation(r) else 'C01-VIOLATION'
+                        except Exception as ex:
+                            results[form] = f'refused: {ex.__class__.__name__}'
+                    sw.distinct.add(('forms', path, fld, i, code))
+                    ok_forms = {k: v for k, v in results.items() if not v.startswith('refused')}
+                    if len(set(results.values())) > 1 and ok_forms and len(ok_forms) < 3 or len(set(ok_forms.values())) > 1:
+                        sw.fail('C03', f'codeform@{a.__class__.__name__}.{fld}:{sw.name}:{path}:[{i}]<-{code}',
+                                f'put_slice({code!r}, {i}, {i + 1}, {fld!r}, one=True, raw="auto") depends on the form '
+                                f'of the code: { {k: v[:40] for k, v in results.items()} }')
         # kind-changing and order-violating puts through the merged virtual fields
         for vf, codes in (('_args', ['kw=1', '*st', '**dst', 'pos']), ('_bases', ['kw=1', '*st', 'pos']),
                           ('_all', ['*v', 'k=3', '**kk', 'p', 'q: int = 2', '/', '*'])):
